@@ -62,6 +62,21 @@ def _l4_fetch_complete(L: int, b: int, F: int, site: int, rs: int, re: int) -> b
     return S.check_fetch_complete(B.blacklisted_binning, L, b, F, site, rs, re) is None
 
 
+def _l4b_site_outside_contig(L: int, b: int, F: int, site: int, rs: int, re: int) -> bool:
+    """
+    pre: 1 <= L <= 6
+    pre: 1 <= b <= 6
+    pre: 2 <= F
+    pre: (-2 <= site < 0) or (L <= site <= L + 1)
+    pre: 0 <= rs < re <= L
+    pre: site - F <= rs and re <= site + F
+    post: _
+    """
+    # scCHIC cut sites lie 1-2 bases outside the read: for a read at the very start / end of a contig the site is -2, -1, L or L+1.
+    # Such a molecule must still be written by exactly one job of the region tiling (the serial pass writes it).
+    return S.check_fetch_complete(B.blacklisted_binning, L, b, F, site, rs, re) is None
+
+
 def _l3_break(sa: int, ra: bool, sb: int, rb: bool, Fi: int, ci: int, same_cell: bool) -> bool:
     """
     pre: 0 <= sa <= 7 and 0 <= sb <= 5
@@ -126,6 +141,7 @@ LEMMAS = [
          cases={'quick': [dict(id='n%d' % n, pre=['n == %d' % n]) for n in (0, 1, 2, 3)]}),
     dict(name='L3_break_criterion', fn='_l3_break', engine='E1', timeout=_T, replay='replay.C08:replay_break',
          cases={'quick': [dict(id='F%d_c%d' % (f, c), pre=['Fi == %d' % f, 'ci == %d' % c]) for f in range(3) for c in range(3)]}),
+    dict(name='L4b_site_outside_contig', fn='_l4b_site_outside_contig', engine='E1', timeout=_T, replay='replay.C08:replay'),
     dict(name='L4_fetch_complete', fn='_l4_fetch_complete', engine='E1', timeout=_T, replay='replay.C08:replay',
          cases={'quick': [dict(id='L%d' % L, pre=['L == %d' % L]) for L in (1, 2, 3, 4, 5)],
                 'thorough': [dict(id='L%d' % L, pre=['L == %d' % L]) for L in (1, 2, 3, 4, 5, 6)]}),
@@ -140,7 +156,7 @@ PROPERTY = dict(
                           fetch='contig <=5, bin <=6, fragment size / site / read interval symbolic'),
             'thorough': dict(tiling='lengths <=5 / <=3', fetch='contig <=6')},
     outside=['worker scheduling (results are a multiset union; order-insensitive)', 'htslib merge', 'MatePairIterator ordering of paired-end reads (the break criterion is checked for single-end reads no longer than the fetch margin)',
-             'molecule-level tag equality between serial and parallel run beyond ownership+completeness (argued on paper: the owning job sees every read of the molecule)', 'cut sites outside [0, contig length) (CHIC reads at the very contig ends) in the region-tiling API'],
+             'molecule-level tag equality between serial and parallel run beyond ownership+completeness (argued on paper: the owning job sees every read of the molecule)'],
     assumptions=['stub molecule/iterator classes passed through the public run_tagging_task API', 'float cut: %r' % (_CUTS,),
                  'fragment lies within fragment_size of its site (documented meaning of the margin)'],
     trusted=['spec/tagging.py', 'vlib/astcut.py', 'vlib/floatcut.py'],
